@@ -72,6 +72,18 @@ def hostile_ledger(rng, extreme):
     tickers = rng.sample(["A", "B", "ZED", "Q9"], rng.randint(1, 3))
     n = rng.randint(1, 12)
     txs = []
+    if rng.random() < 0.08:
+        # a sale, then inside its 30-day window a SPLIT/UNSPLIT with a zero (or negative) ratio, then a repurchase still
+        # inside the window: the look-ahead meets the ratio before the day loop does
+        tk = rng.choice(tickers)
+        D0 = dt.date(2024, rng.randint(1, 10), rng.randint(1, 20))
+        bad = rng.choice(["0", "0", "0.0", "-1", "-0.5"])
+        return [{"date": iso(D0), "ticker": tk, "kind": "BUY", "amount": "100", "price": ["10", "GBP"], "fees": ["0", "GBP"]},
+                {"date": iso(D0 + dt.timedelta(days=rng.randint(1, 20))), "ticker": tk, "kind": "SELL", "amount": rng.choice(["40", "100"]),
+                 "price": ["12", "GBP"], "fees": ["0", "GBP"]},
+                {"date": iso(D0 + dt.timedelta(days=rng.randint(21, 30))), "ticker": tk, "kind": rng.choice(["SPLIT", "UNSPLIT"]), "ratio": bad},
+                {"date": iso(D0 + dt.timedelta(days=rng.randint(31, 45))), "ticker": tk, "kind": "BUY", "amount": "30",
+                 "price": ["11", "GBP"], "fees": ["0", "GBP"]}]
     if rng.random() < 0.25:
         # degenerate days: several lines of one security on one or two dates with zero / tiny quantities and prices, so
         # that same-day merging, averaging and apportioning see zero totals
@@ -303,6 +315,26 @@ def run_convert_soup(desc):
                 if rng.random() < 0.1:
                     r.pop(rng.choice(list(r)), None)
             tj = json.dumps({"BrokerageTransactions": rows} if rng.random() < 0.9 else rows)
+        if rng.random() < 0.12:
+            # several sells of one symbol on one date and Cancel Sell rows for some of them, in every relative order
+            # (newest-first exports list the correction of the older sale later)
+            sells = [{"Date": "05/10/2023", "Action": "Sell", "Symbol": "XYZZ", "Description": "d", "Quantity": str(10 + i),
+                      "Price": "$%d.00" % (50 + i), "Fees & Comm": "$0.10", "Amount": "$1.00"} for i in range(rng.randint(2, 5))]
+            cancels = [dict(r, Action="Cancel Sell") for r in rng.sample(sells, rng.randint(1, len(sells)))]
+            order = rng.choice(["sells_then_cancels_reversed", "shuffled", "cancels_first"])
+            if order == "sells_then_cancels_reversed":
+                rows_ = sells + list(reversed(cancels))
+            elif order == "cancels_first":
+                rows_ = cancels + sells
+            else:
+                rows_ = sells + cancels
+                rng.shuffle(rows_)
+            if rng.random() < 0.5:
+                rows_.insert(0, {"Date": "04/25/2023", "Action": "Buy", "Symbol": "XYZZ", "Description": "d", "Quantity": "100",
+                                 "Price": "$40.00", "Fees & Comm": "", "Amount": "-$4,000.00"})
+            cases.append({"op": "convert", "transactions_json": json.dumps({"BrokerageTransactions": rows_}), "awards_json": None, "reparse": False})
+            cnt["convert_cancellation_storms"] += 1
+            continue
         if rng.random() < 0.15:
             # an RSU deposit row at a calendar extreme with a well-formed awards file: the 7-day look-back has to do
             # date arithmetic at the edge of what the date type can represent
